@@ -48,6 +48,12 @@ def cells(tier):
                     'relay_pool': 1})
         out.append({'kind': 'load', 'backend': 'dict'})
         out.append({'kind': 'load', 'backend': 'redis'})
+        out.append({'kind': 'load', 'backend': 'redis', 'extra': 6,
+                    'enqueue_at_start': 1})
+        out.append({'kind': 'load', 'backend': 'disk', 'extra': 2,
+                    'enqueue_at_start': 1})
+        for b in ('redis', 'disk', 'cloud'):
+            out.append({'kind': 'inject', 'backend': b, 'K': 40})
         out.append({'kind': 'flush', 'backend': 'dict', 'msgs': 2})
         out.append({'kind': 'flush', 'backend': 'redis', 'msgs': 1})
     else:
@@ -57,7 +63,11 @@ def cells(tier):
             out.append({'kind': 'retry', 'backend': b, 'msgs': 2, 'fails': 1,
                         'relay_pool': 1})
             out.append({'kind': 'load', 'backend': b})
+            out.append({'kind': 'load', 'backend': b, 'extra': 6,
+                        'enqueue_at_start': 1})
             out.append({'kind': 'flush', 'backend': b, 'msgs': 2})
+            if b != 'dict':
+                out.append({'kind': 'inject', 'backend': b, 'K': 80})
         out.append({'kind': 'retry', 'backend': 'dict', 'msgs': 3, 'fails': 1})
     return out
 
@@ -187,19 +197,26 @@ def run_load(cell):
     """2 messages already in storage at start-up with symbolic due times, a
     third one stored by another process and announced through wait()"""
     import gevent
-    w = World(cell, lambda tag: 1 if tag == 'm0' else 0)
+    w = World(cell, lambda tag: 1 if tag in ('m0', 'e0') else 0)
     store = w.store
     ids = {}
     dues = {}
     t_w = api.real('t_announce', 0)
     ts_w = api.real('ts_announce', 0)
 
+    simple = bool(cell.get('enqueue_at_start'))
+
     def prep():
-        for i in range(2):
+        for i in range(0 if simple else 2):
             tag = 'm%d' % i
             due = api.real('due%d' % i, 0)
             ids[tag] = store.write(qc.make_envelope(tag, 's@z', ['a@x']), due)
             dues[tag] = due
+        for i in range(cell.get('extra', 0)):
+            tag = 'x%d' % i
+            ids[tag] = store.write(qc.make_envelope(tag, 's@z', ['a@x']),
+                                   100 + i)
+            dues[tag] = 100 + i
     g = gevent.spawn(prep)
     qc.run_until_quiescent()
     announce = []
@@ -230,11 +247,20 @@ def run_load(cell):
         if cell['backend'] in ('dict', 'disk'):
             announce.append((ts_w, qid))
             gate.set()
-    if cell['backend'] != 'cloud':
+    if cell['backend'] != 'cloud' and not simple:
         gevent.spawn(other_process)
+    early = {}
+    if cell.get('enqueue_at_start'):
+        # a message accepted while the start-up load() is still running; it
+        # fails once and is re-queued by _retry_later during the load
+        early['e0'] = w.queue.enqueue(
+            qc.make_envelope('e0', 's@z', ['a@x']))[0][1]
     qc.run_until_quiescent()
     w.queue.kill()
     info = dict(backend=cell['backend'], kind='load')
+    if early:
+        w.check_not_early(info, early)
+        w.check_not_forgotten(info, early)
     api.observe('calls', [[c['tag'], c['attempts']] for c in w.relay.calls])
     for tag, qid in ids.items():
         calls = [c for c in w.relay.calls if c['tag'] == tag]
@@ -293,6 +319,72 @@ def run_flush(cell):
                       **info)
     w.check_not_early(info, ids)
     w.check_not_forgotten(info, ids)
+
+
+def run_inject(cell):
+    """a duplicate announcement of the message through the storage's wait()
+    mechanism, delivered inside the k-th storage operation, for every k: the
+    retry must still wait for the due time the backoff chose"""
+    import gevent
+    import pickle
+    backend = cell['backend']
+    w = World(cell, lambda tag: 2)
+    store = w.store
+    mq = None
+    announce = []
+    if backend == 'cloud':
+        mq = qc.FakeMessageQueue()
+        store.msg_queue = mq
+    if backend == 'disk':
+        from gevent.event import Event
+        gate = Event()
+
+        def wait():
+            gate.wait()
+            gate.clear()
+            out, announce[:] = list(announce), []
+            return out
+        store.wait = wait
+    w.queue.start()
+    qc.run_until_quiescent()
+    state = {}
+    k = api.choice('k', cell['K'])
+
+    def event():
+        qid = state.get('id')
+        if qid is None:
+            return
+        ts = state['ts']
+        if backend == 'disk':
+            announce.append((ts, qid))
+            gate.set()
+        elif backend == 'redis':
+            w.sub.lists.setdefault(store.queue_key, []).append(
+                pickle.dumps((ts, qid)))
+            w.sub._wake()
+        else:
+            mq.msgs.append((ts, qid, 999))
+            mq.ev.set()
+    qc.INJECT[qc.YIELDS[0] + k] = event
+    orig_write = store.write
+
+    def write(envelope, timestamp):
+        qid = orig_write(envelope, timestamp)
+        state['id'] = qid
+        state['ts'] = timestamp
+        return qid
+    store.write = write
+    ids = {'m0': w.queue.enqueue(qc.make_envelope('m0', 's@z',
+                                                  ['a@x']))[0][1]}
+    qc.run_until_quiescent()
+    w.queue.kill()
+    info = dict(backend=backend, kind='inject', k=k)
+    api.observe('calls', [[c['tag'], c['attempts']] for c in w.relay.calls])
+    w.check_not_early(info, ids)
+    calls = [c for c in w.relay.calls if c['tag'] == 'm0']
+    left = w.stored_ids()
+    api.prove(len(calls) >= 3 and ids['m0'] not in left, 'message-forgotten',
+              attempts=len(calls), **info)
 
 
 def classify(cell, inputs, failure):
